@@ -619,7 +619,7 @@ func (t *Translator) analyse() {
 			seen[fi] = true
 			ast.Inspect(t.body(fi), func(m ast.Node) bool { // [seq] t.body: without a timed tail
 				if c, ok := m.(*ast.CallExpr); ok {
-					if fn, _ := t.calleeOf(c); fn != nil {
+					if fn, _ := t.calleeOf(c); fn != nil && !t.identCall07(c) { // [ext:T07] not: TransSpec.Identity
 						fi.callees[t.funcFor(fn, c)] = true
 					}
 				}
